@@ -56,7 +56,7 @@ func verifC10Result(texts int) *Result {
 // symbolic and unordered in time, so every arrival order is covered; the
 // reference is symmetric in its inputs, which gives order independence.
 //
-//verif:harness param.n=1..2 thorough.param.n=1..3 unwind=64 timeout=20000 thorough.deadline=3000
+//verif:harness param.n=1..2 thorough.param.n=1..3 unwind=64 timeout=20000 thorough.timeout=180000 thorough.deadline=3000
 func verif_harness_C10_bounded() {
 	n := verif_param("n")
 	var samples []float64
@@ -65,10 +65,16 @@ func verif_harness_C10_bounded() {
 	var m Metrics
 	// 0: only the final Close; k in 1..n: an extra Close after the k-th
 	// addition (periodic reporting); n+1: Close twice at the end
-	closes := verif_choose("closes", n+2)
+	closes, texts := 0, 1
+	if n <= 2 {
+		closes, texts = verif_choose("closes", n+2), 2
+	}
+	// (three results: only the final Close and one error text — the extra
+	// Close positions and a second error text are covered with n <= 2; with
+	// them the n = 3 instance did not finish in 50 minutes)
 	rs := make([]*Result, n)
 	for i := range rs {
-		rs[i] = verifC10Result(2)
+		rs[i] = verifC10Result(texts)
 		m.Add(rs[i])
 		if closes == i+1 {
 			m.Close()
